@@ -125,8 +125,7 @@ fn signature(case: &Case) -> String {
     if case.kind == "pu-launder" {
         return "C04/accepted/pu-type/via-fn-annotation".to_string();
     }
-    let v = case.variant.split(':').next().unwrap_or("");
-    format!("C04/accepted/{}/{}/{}", case.kind, v, nest_class(case))
+    format!("C04/accepted/{}/{}", case.kind, nest_class(case))
 }
 
 impl Check for C04 {
